@@ -264,6 +264,14 @@ class World:
             rec = on_call(args, kwargs)
             if rec is None:
                 return world.orphan_body()
+            if wspec.get("bad_return_at") == rec.idx and not rec.req.spec.get("probe"):
+                # flagged as a coroutine function, returns an awaitable that is no coroutine
+                rec.req.bad_return = rec.idx  # type: ignore[attr-defined]
+                rec.req.pm.fault_seen = True
+                rec.raised = True             # no task can come out of this call
+                fut = world.loop.create_future()
+                fut.set_result(None)
+                return fut
             return world.body(rec, wspec)
 
         w.__name__ = fname
